@@ -1119,7 +1119,7 @@ func propC09(c *Ctx) {
 	var corr []corrCase
 	c.c09Primes()
 	c.c09Values(g, &corr)
-	c.c09Random(g)
+	c.c09Random(g, &corr)
 	sc := c.suite("dh-model-vs-impl", "correspondence",
 		"lines dhpub / dhshared (Lean square-and-multiply over the generated prime, left padding as in the Go code) and spec-dhpub / spec-dhshared (RFC prime literal, fixed-width encoding) for the cases of dh-values-vs-reference (thorough: group 14 sampled 1 in 3); Go outcome = Lean driver line; non-trivial = exponent > 1 and peer > 1")
 	c.correspond(sc, corr)
@@ -1294,7 +1294,7 @@ func (c *Ctx) c09Values(g *Gen, corr *[]corrCase) {
 	}
 }
 
-func (c *Ctx) c09Random(g *Gen) {
+func (c *Ctx) c09Random(g *Gen, corr *[]corrCase) {
 	s := c.suite("random-exponent", "oracle",
 		"security.GenerateRandomNumber under the deterministic crypto/rand.Reader: octet streams random (256..700 octets, cyclic), first draw forced <= 2^128-1 (240 zero octets, incl. exactly 2^128-1 and exactly 2^128), first draw forced = 2^2048-1 (rejected inside rand.Int); result = what the stdlib's rand.Int yields for the same octets, 2^128 <= r < 2^2048, reader consumed equally; the same octets delivered in pieces of at most 1/7/100/255 octets per Read give the same number, a source failing in the middle of a draw gives an error; different served octets give different numbers, two calls on one stream differ; a failure injected at every Read index 0..k-1 (k = reads of the successful run) gives an error and no number, at index k no failure is seen; NewIKESAKey and CalculateDiffieHellmanMaterials with the failing reader return an error and no SA / public value, with a good reader the local public value is 2^r mod p; non-trivial = every case; distinct by octet stream")
 	lo := new(big.Int).Lsh(bigN(1), 128)
@@ -1304,7 +1304,14 @@ func (c *Ctx) c09Random(g *Gen) {
 	for j := 0; j < n; j++ {
 		var rnd []byte
 		kind := "random"
-		switch j % 6 {
+		switch j % 7 {
+		case 6:
+			kind = "first-draw-top" // the upper end of the range: 2^2048 - 2^128 <= draw < 2^2048 - 1
+			rnd = append(append(bytes.Repeat([]byte{0xff}, 240), g.keyBytesRandom(16)...), g.kdRandBuf(256)...)
+			if j%14 == 6 {
+				rnd[255] = 0xfe // 2^2048 - 2: the largest value rand.Int can return
+				copy(rnd[240:255], bytes.Repeat([]byte{0xff}, 15))
+			}
 		case 0, 1:
 			rnd = g.kdRandBuf(256 + g.intn(445))
 		case 2:
@@ -1399,6 +1406,13 @@ func (c *Ctx) c09Random(g *Gen) {
 				return num.Text(16), nil
 			})
 			s.Dist[fmt.Sprintf("fail-injected:%s", fr.kind)]++
+			if corr != nil && (j < 40 || j%10 == 0) { // the same through the model generated from the source
+				gr := fr
+				if gr.kind == "ok" {
+					gr.val = "x" + gr.val
+				}
+				*corr = append(*corr, corrCase{line: fmt.Sprintf("genrandom %s %d", hx(rnd), f), goRes: gr.String(), nontr: true, genOnly: true, tags: []string{"op:genrandom"}})
+			}
 			if f < reads && (fr.kind != "err" || num != nil) {
 				fail("failure-ignored", fmt.Sprintf("random source failed at read %d but a number was returned", f), "err", fr.String())
 			}
